@@ -246,3 +246,63 @@ func RLookDir(c *core.Ctx) {
 		c.Anchor("lookaround arms in scanGroupOpen")
 	}
 }
+
+// ---------------------------------------------------------------------------
+// R-ANCHORSIB: inside the direction arms of the anchor pre-filter every anchor
+// is tested on its own.  The anchors differ in what they allow (End: only the
+// very end; EndZ: the end or just before a final newline; Beginning vs
+// Start), and the left-to-right arm treats each separately; an arm that folds
+// two of them into one mask test applies one anchor's position rule to the
+// other.
+// ---------------------------------------------------------------------------
+
+func RAnchorSib(c *core.Ctx) {
+	c.Rule("R-ANCHORSIB", "in findFirstCharDefault, below the outer dispatch test, every test of the published anchor set (`r.code.Anchors & M`) uses a mask M that is a single anchor bit, in the left-to-right and in the right-to-left arm alike: each anchor has its own position rule", 6)
+	p := c.P
+	pk := p.Pkg("")
+	info := pk.TypesInfo
+	fd, _ := p.DeclOf(p.LookupFunc("", "findFirstCharDefault"))
+	anchors := p.LookupField("syntax", "Code", "Anchors")
+	if fd == nil || anchors == nil {
+		c.Anchor("findFirstCharDefault / syntax.Code.Anchors")
+		return
+	}
+	c.Visit("regexp2.findFirstCharDefault")
+	// the outer dispatch: the first if statement of the body whose condition tests Anchors
+	var outer *ast.IfStmt
+	for _, st := range fd.Body.List {
+		if ifs, ok := st.(*ast.IfStmt); ok && outer == nil {
+			outer = ifs
+		}
+	}
+	if outer == nil {
+		c.Anchor("the anchor dispatch of findFirstCharDefault")
+		return
+	}
+	n := 0
+	ast.Inspect(outer.Body, func(x ast.Node) bool {
+		be, ok := x.(*ast.BinaryExpr)
+		if !ok || be.Op != token.AND {
+			return true
+		}
+		var mask ast.Expr
+		if core.FieldOf(info, be.X) == anchors {
+			mask = be.Y
+		} else if core.FieldOf(info, be.Y) == anchors {
+			mask = be.X
+		} else {
+			return true
+		}
+		k, ok := core.ConstInt(info, mask)
+		if !ok {
+			return true
+		}
+		n++
+		c.Check(k > 0 && k&(k-1) == 0, fmt.Sprintf("findFirstCharDefault / anchor test #%d inside the direction arms names one anchor", n), be.Pos(),
+			"the mask %s combines several anchors (%#x): they are then subjected to the same position rule, although e.g. EndZ also allows the position before a final newline where End does not", types.ExprString(mask), k)
+		return true
+	})
+	if n == 0 {
+		c.Anchor("anchor tests inside the direction arms")
+	}
+}
